@@ -136,56 +136,58 @@ type sqlEdge struct {
 // C06: SQLite store, every query equals the filter spec over stored live events.
 func C06(run *core.Run) {
 	distinct := core.NewDistinct()
-	universe := map[string]abs.Event{}
-	edges := map[string]map[string][]sqlEdge{}
-	initKey := sqlKey{}.String()
-	res, err := tlcrun.Run(tlcrun.Options{
-		Module: "SqlMC", Config: "SqlMC.cfg", Workers: 1, Timeout: 20 * time.Minute,
-		OnJSON: func(line string) {
-			var t struct {
-				Universe []abs.Event `json:"universe"`
-				S        sqlKey      `json:"s"`
-				A        string      `json:"a"`
-				T        sqlKey      `json:"t"`
-				Live     []string    `json:"live"`
-			}
-			if err := json.Unmarshal([]byte(line), &t); err != nil {
-				run.Problem("bad export line %v", err)
-				return
-			}
-			if t.Universe != nil {
-				for _, e := range t.Universe {
-					universe[e.ID] = e
+	for _, cfg := range []string{"SqlMC.cfg", "SqlMC2.cfg"} {
+		universe := map[string]abs.Event{}
+		edges := map[string]map[string][]sqlEdge{}
+		initKey := sqlKey{}.String()
+		res, err := tlcrun.Run(tlcrun.Options{
+			Module: "SqlMC", Config: cfg, Workers: 4, Timeout: 20 * time.Minute,
+			OnJSON: func(line string) {
+				var t struct {
+					Universe []abs.Event `json:"universe"`
+					S        sqlKey      `json:"s"`
+					A        string      `json:"a"`
+					T        sqlKey      `json:"t"`
+					Live     []string    `json:"live"`
 				}
-				return
+				if err := json.Unmarshal([]byte(line), &t); err != nil {
+					run.Problem("bad export line %v", err)
+					return
+				}
+				if t.Universe != nil {
+					for _, e := range t.Universe {
+						universe[e.ID] = e
+					}
+					return
+				}
+				sk := t.S.String()
+				if edges[sk] == nil {
+					edges[sk] = map[string][]sqlEdge{}
+				}
+				edges[sk][t.A] = append(edges[sk][t.A], sqlEdge{t.T.String(), t.Live})
+			},
+		})
+		if err != nil || !res.OK {
+			tail := ""
+			if res != nil {
+				tail = res.Tail
 			}
-			sk := t.S.String()
-			if edges[sk] == nil {
-				edges[sk] = map[string][]sqlEdge{}
-			}
-			edges[sk][t.A] = append(edges[sk][t.A], sqlEdge{t.T.String(), t.Live})
-		},
-	})
-	if err != nil || !res.OK {
-		tail := ""
-		if res != nil {
-			tail = res.Tail
+			run.Problem("TLC failed on SqlMC (%s): %v\n%s", cfg, err, tail)
+			continue
 		}
-		run.Problem("TLC failed on SqlMC: %v\n%s", err, tail)
-	} else {
-		run.Set("states", res.Distinct)
-		run.Set("transitions", res.Generated)
-		sqlGraphReplay(run, universe, edges, initKey, distinct)
+		run.Add("states", res.Distinct)
+		run.Add("transitions", res.Generated)
+		sqlGraphReplay(run, universe, edges, initKey, distinct, cfg == "SqlMC2.cfg")
 	}
 	sqlRandomHistories(run, distinct)
-	run.Set("rule", "TLC enumerates SqlMC (12-event universe: regular, versions of one address, two authors, ephemeral, deletion requests by id / address / foreign / with relay hints / of a deletion request) and exports every transition with the live set; each is replayed on a real in-memory SQLite database (path as one batch or event by event) and compared, with probe queries judged by TLC (FindTrace). Seeded random batch histories (arbitrary Unicode content incl. NUL, <, astral; 3-element tags; duplicates; deletion before/after target) are validated against SqlTrace with the full listing after every batch and random filter lists incl. limit 0/1, empty lists, several #x conditions, overlapping filters. Every returned event is compared in all seven fields. distinct_nontrivial = distinct (state, event) edges replayed + distinct non-empty query answers")
+	run.Set("rule", "TLC enumerates SqlMC over two universes (13 events: regular, versions of one address, two authors, ephemeral, deletion requests by id / address / foreign / with relay hints / of a deletion request, two values of one tag name; 8 events: d values containing ':' and their neighbours with address deletions) and exports every transition with the live set; every edge is replayed on a real in-memory SQLite database (path as one batch or event by event) and its listing compared; probe queries (quick: after the edges of every second state; thorough: all) are judged by TLC (FindTrace). Seeded random batch histories (arbitrary Unicode content incl. NUL, <, astral; 3-element tags; duplicates; deletion before/after target; d values with ':') are validated against SqlTrace with the full listing after every batch and random filter lists incl. limit 0/1, empty lists, several #x conditions, overlapping filters. Every returned event is compared in all seven fields. distinct_nontrivial = distinct (state, event) edges replayed + distinct non-empty query answers")
 	run.Set("evaluations", run.Get("replayed_transitions")+run.Get("trace_lines"))
 	run.Set("distinct_nontrivial", distinct.Len())
 	run.Assume = append(run.Assume, "64-bit event key collisions are assumed away", "addressable events without d tag are not generated (the property identifies addressable events by their d tag)",
 		"created_at ties between versions of one address are left open", "address references are exercised on addressable events only")
 }
 
-func sqlGraphReplay(run *core.Run, universe map[string]abs.Event, edges map[string]map[string][]sqlEdge, initKey string, distinct *core.DistinctSet) {
+func sqlGraphReplay(run *core.Run, universe map[string]abs.Event, edges map[string]map[string][]sqlEdge, initKey string, distinct *core.DistinctSet, allProbes bool) {
 	st, err := openMemSQL()
 	if err != nil {
 		run.Problem("cannot open sqlite: %v", err)
@@ -225,17 +227,7 @@ func sqlGraphReplay(run *core.Run, universe map[string]abs.Event, edges map[stri
 			}
 			edgeNo++
 			selfLoop := len(es) == 1 && es[0].to == sk
-			if !run.Thorough() && (nstate+int(run.Seed))%2 != 0 {
-				// quick tier: the edges of every second state (by seed) are replayed on the real
-				// database; the others are only used to reach further states
-				for _, e := range es {
-					if _, seen := paths[e.to]; !seen {
-						paths[e.to] = append(append([]string{}, path...), a)
-						queue = append(queue, e.to)
-					}
-				}
-				continue
-			}
+			probesHere := run.Thorough() || allProbes || (nstate+int(run.Seed))%2 == 0
 			if err := st.Reset(); err != nil {
 				run.Problem("reset: %v", err)
 				return
@@ -301,8 +293,8 @@ func sqlGraphReplay(run *core.Run, universe map[string]abs.Event, edges map[stri
 			// a few probe queries in this state, judged by TLC against the spec's live set
 			tr := tv.Trace{Name: fmt.Sprintf("state after %v+%s", path, a)}
 			nprobe := 2
-			if !run.Thorough() && selfLoop {
-				nprobe = 0 // quick tier: probe queries after state-changing edges only
+			if !probesHere || (!run.Thorough() && selfLoop) {
+				nprobe = 0 // quick tier: probe queries after the state-changing edges of every second state
 			}
 			for i := 0; i < nprobe; i++ {
 				fs := []abs.Filter{fu[r.Intn(len(fu))]}
@@ -347,7 +339,7 @@ func filterUniverseSQL() []abs.Filter {
 	ids := []abs.StrSet{{}, {P: true, S: []string{}}, {P: true, S: []string{"r1"}}, {P: true, S: []string{"r1", "p2", "x2", "k1"}}}
 	authors := []abs.StrSet{{}, {P: true, S: []string{"a"}}, {P: true, S: []string{"a", "b"}}}
 	kinds := []abs.IntSet{{}, {P: true, S: []int64{1}}, {P: true, S: []int64{0, 30000}}, {P: true, S: []int64{5}}}
-	tags := []map[string][]string{{}, {"t": {"x"}}, {"t": {"x", "y"}}, {"e": {"r1"}}, {"d": {"x"}}, {"a": {"30000:a:x"}}, {"t": {"x"}, "d": {"x", "y"}}, {"e": {"r1", "p2"}, "E": {"r1"}}, {"e": {"r1"}, "p": {"a"}, "E": {"r1"}}, {"t": {}}}
+	tags := []map[string][]string{{}, {"t": {"x"}}, {"t": {"x", "y"}}, {"e": {"r1"}}, {"d": {"x"}}, {"d": {"u:v", "u"}}, {"a": {"30000:a:x"}}, {"a": {"30000:a:u:v"}}, {"t": {"x"}, "d": {"x", "y"}}, {"e": {"r1", "p2"}, "E": {"r1"}}, {"e": {"r1"}, "p": {"a"}, "E": {"r1"}}, {"t": {}}}
 	times := [][2]abs.OptInt{{{}, {}}, {{P: true, V: 2}, {}}, {{}, {P: true, V: 2}}, {{P: true, V: 2}, {P: true, V: 3}}}
 	limits := []abs.OptInt{{}, {P: true, V: 0}, {P: true, V: 1}, {P: true, V: 2}}
 	var out []abs.Filter
@@ -371,7 +363,7 @@ func filterUniverseSQL() []abs.Filter {
 func sqlRandomHistories(run *core.Run, distinct *core.DistinctSet) {
 	nt, nb := 25, 14
 	if run.Thorough() {
-		nt, nb = 250, 30
+		nt, nb = 240, 24
 	}
 	r := run.Rand("c06-hist")
 	st, err := openMemSQL()
@@ -433,7 +425,7 @@ func sqlRandomHistories(run *core.Run, distinct *core.DistinctSet) {
 		}
 		traces = append(traces, tr)
 	}
-	out, err := tv.Validate(sqlTraceSpec, nil, traces, 6)
+	out, err := tv.ValidateChunks(sqlTraceSpec, nil, traces, 6, 30, 8)
 	if out != nil {
 		run.Add("traces_validated_against_impl", int64(out.Accepted+len(out.Rejects)))
 		run.Add("trace_lines", int64(out.Lines))
